@@ -680,7 +680,7 @@ theorem C07_neg_id_cleared_before_stop :
 
 /-! ### the candidate repair of F27 (`findings/F27_candidate_repair.diff`): the handler's wait ends when the backend thread is gone -/
 
-/-- the interleaving theorems above are about the code whose handler waits for ever (`Obligations.exit_flush_waits_for_ever`) -/
+/-- the interleaving theorems above are about the code whose handler waits for ever (extracted: `flushEndsWhenBackendGone = false`; `Obligations.C07_signal_during_stop_extracted_flush`) -/
 theorem C07_stop_model_waits_for_ever (wait info crit : Bool) (s : Sig) (pr : Bool) (a b : CS) :
     signalDuringStopG false wait info crit s pr a b = signalDuringStop wait info crit s pr a b := rfl
 
